@@ -40,6 +40,7 @@ package certs
 //@   modifies auto
 //@   maypanic
 //@   assumes _nextInstance >= nextInstance
+//@   assumes err == nil ==> _nextInstance == nextInstance + len(certs) && forall(i, 0, len(certs), certs[i].GPBFTInstance == nextInstance + i)
 //@   assumes err == nil && isTableFor(prevPowerTable, nextInstance) ==> isTableFor(newPowerTable, _nextInstance)
 //@   ensures[accepts_only_consecutive_instances] err == nil && old(nextInstance) + len(certs) <= 18446744073709551615 ==>
 //@        _nextInstance == old(nextInstance) + len(certs) && forall(i, 0, len(certs), certs[i].GPBFTInstance == old(nextInstance) + i)
